@@ -36,6 +36,7 @@ type specEnv struct {
 	bound     int
 	pol       int // +1: formula is a proof goal, -1: an assumption, 0: unknown/mixed
 	localsAt  *ssa.BasicBlock // postconditions: program point at which non-parameter locals are read
+	inOld     bool
 	errs      []string
 }
 
@@ -189,6 +190,12 @@ func (se *specEnv) ident(x *ast.Ident) tv {
 	}
 	if t, ok := se.overrides[x.Name]; ok {
 		return t
+	}
+	if se.inOld {
+		// old(p): a parameter inside old() is its value at function entry, even if the body reassigns it
+		if t, ok := se.names[x.Name]; ok {
+			return t
+		}
 	}
 	if se.block != nil {
 		// inside the body (loop invariants, call-site clauses) a name means the variable's current value
@@ -615,7 +622,10 @@ func (se *specEnv) call(x *ast.CallExpr) tv {
 		}
 		saveOv := se.overrides
 		se.overrides = nil
+		saveOld := se.inOld
+		se.inOld = true
 		r := se.withState(se.pre, func() tv { return se.eval(x.Args[0]) })
+		se.inOld = saveOld
 		se.overrides = saveOv
 		return r
 	case "old_elem":
@@ -742,6 +752,27 @@ func (se *specEnv) call(x *ast.CallExpr) tv {
 			return tv{term: f, typ: boolT}
 		}
 		return tv{term: fmt.Sprintf("(exists ((%s Int)) %s)", nb, and(rng2, body2)), typ: boolT}
+	case "forall_bytes":
+		// forall_bytes(s, body): for every well-formed []byte value s (header and contents arbitrary)
+		if !argn(2) {
+			return tv{term: "false", typ: boolT}
+		}
+		vid, ok := x.Args[0].(*ast.Ident)
+		if !ok {
+			return se.fail("quantifier variable must be an identifier")
+		}
+		bt := types.NewSlice(types.Typ[types.Uint8])
+		se.v.ctr++
+		bn := q(fmt.Sprintf("%s!%d", vid.Name, se.v.ctr))
+		saved, had := se.names[vid.Name]
+		se.names[vid.Name] = tv{term: bn, typ: bt}
+		body := se.evalBool(x.Args[1])
+		if had {
+			se.names[vid.Name] = saved
+		} else {
+			delete(se.names, vid.Name)
+		}
+		return tv{term: fmt.Sprintf("(forall ((%s Slice)) %s)", bn, imp(fmt.Sprintf("(slice_wf %s)", bn), body)), typ: boolT}
 	case "forall_u64", "forall_i64", "forall_u8", "forall_u32":
 		// typed universal quantifier (bit-vector in arith bv, ranged Int otherwise)
 		if !argn(2) {
